@@ -169,6 +169,15 @@ def check_state_control(db, R, fn, cls):
                 probs.append('passes the states %s to the state hook, expected %s' % (list(states[0][3]), rest))
         elif states:
             probs.append('the control state is not interested in the rule (enable< Rule > is false) but its %s is called' % [s2[1] for s2 in states])
+        # exception order: a hook of the wrapped control may throw (must_if< Errors >::control< Rule >::failure raises by design; any start may);
+        # match() calls success/failure after the unwind guard is gone and start before it exists, so the observing state stays balanced only if
+        # it is told of the end of an attempt BEFORE the wrapped hook runs and of the start AFTER the wrapped start returned
+        if ctl_enabled and state_enabled and len(hooks) == 1 and len(states) == 1 and fn['n'] in ('start', 'success', 'failure'):
+            ih = [i for i, e in enumerate(ev) if e is hooks[0]][0]; is_ = [i for i, e in enumerate(ev) if e is states[0]][0]
+            if fn['n'] == 'start' and is_ < ih:
+                probs.append('tells the control state of the start before the wrapped control\'s start returned: when that throws, the state keeps an open start that no success, failure or unwind closes (no unwind guard exists yet)')
+            if fn['n'] in ('success', 'failure') and ih < is_:
+                probs.append('calls the wrapped control\'s %s before telling the control state: when that hook throws (must_if raises from failure) the state sees neither %s nor unwind for a start it has seen (the unwind guard is already gone)' % (fn['n'], fn['n']))
     R.ob(ok=not probs, key=fn['disp'])
     for p in sorted(set(probs)):
         R.violation('H8', site(fn, cls), p, {'function': fn['disp']})
